@@ -54,6 +54,11 @@ NPQ_KERNELS = [
          branching=True),
     dict(name="SHAGA_update_u", file="optimizers/_shaga.py", cls="SHAGA", func="_update_u", params=[("u", "S1"), ("S", "VQ"), ("df", "VQ")], ret="S1",
          branching=True, ext_scalar_fn={"lehmer_mean": ("lehmerFn", ["x", "weight"])}),
+    # max_axis and softmax_numba (C12; module-level njit functions of utils/__init__.py): arrays of rationals, `np.exp` the function parameter
+    # `expo`; the two row loops are read as one primitive each (NpQ.rowMaxCol, NpQ.zeroToOne)
+    dict(name="Net_max_axis", file="utils/__init__.py", cls=None, func="max_axis", params=[("array", "Q")], ret="Q", branching=True, matrix=True),
+    dict(name="Net_softmax_numba", file="utils/__init__.py", cls=None, func="softmax_numba", params=[("X", "Q")], ret="Q", branching=True, matrix=True,
+         calls_q={"max_axis": "Net_max_axis"}, expo=True),
     # SelfCGA._get_new_proba (C14): the probability table is read as the vector of its values in key order (kind DQ), the winning operator
     # as the position of its key (kind IDX)
     dict(name="SelfCGA_get_new_proba", file="optimizers/_selfcga.py", cls="SelfCGA", func="_get_new_proba",
@@ -443,6 +448,38 @@ class TrQ:
                 raise NotRecognised("cauchy_distribution operand kinds")
             self.draws += 1
             return f"(cauchy {a} {b} {self.draws - 1})", "S1"
+        if self.cfg.get("matrix"):
+            # np.zeros((A.shape[0], 1), dtype=np.float64): a column of zeros, one per row of A
+            if isinstance(e, ast.Call) and is_np(e.func, "zeros") and len(e.args) == 1 and [k.arg for k in e.keywords] == ["dtype"] \
+                    and ast.unparse(e.keywords[0].value) == "np.float64" and isinstance(e.args[0], ast.Tuple) and len(e.args[0].elts) == 2 \
+                    and is_const(e.args[0].elts[1], 1) and ast.unparse(e.args[0].elts[0]).endswith(".shape[0]"):
+                a = ast.unparse(e.args[0].elts[0])[:-9]
+                if self.env.get(a) != "Q":
+                    raise NotRecognised("zeros shape")
+                return f"(NpQ.zeroCol {a})", "QC"
+            # np.exp(M)
+            if isinstance(e, ast.Call) and is_np(e.func, "exp") and len(e.args) == 1 and not e.keywords and self.cfg.get("expo"):
+                x, k = self.E(e.args[0])
+                if k != "Q":
+                    raise NotRecognised("exp operand")
+                return f"(NpQ.map expo {x})", "Q"
+            # M - column (broadcast along the rows)
+            if isinstance(e, ast.BinOp) and isinstance(e.op, ast.Sub) and self._kind(e.left) == "Q" and self._kind(e.right) == "QC":
+                return self.bind(f"NpQ.subCol {self.E(e.left)[0]} {self.E(e.right)[0]}"), "Q"
+            # a translated kernel called on a matrix
+            if isinstance(e, ast.Call) and isinstance(e.func, ast.Name) and e.func.id in self.cfg.get("calls_q", {}) and len(e.args) == 1 and not e.keywords:
+                x, k = self.E(e.args[0])
+                if k != "Q":
+                    raise NotRecognised("callee operand")
+                return self.bind(f"{self.cfg['calls_q'][e.func.id]} {x}"), "QC"
+            # np.sum(M, axis=1)
+            if isinstance(e, ast.Call) and is_np(e.func, "sum") and len(e.args) == 1 and [k.arg for k in e.keywords] == ["axis"] and is_const(e.keywords[0].value, 1) \
+                    and self._kind(e.args[0]) == "Q":
+                return f"(NpQ.sumRows {self.E(e.args[0])[0]})", "VQ"
+            # (M.T / v).T : row i of M divided by v[i]
+            if isinstance(e, ast.Attribute) and e.attr == "T" and isinstance(e.value, ast.BinOp) and isinstance(e.value.op, ast.Div) \
+                    and isinstance(e.value.left, ast.Attribute) and e.value.left.attr == "T" and self._kind(e.value.left.value) == "Q" and self._kind(e.value.right) == "VQ":
+                return self.bind(f"NpQ.divRows {self.E(e.value.left.value)[0]} {self.E(e.value.right)[0]}"), "Q"
         if isinstance(e, ast.Call) and is_np(e.func, "power") and len(e.args) == 2 and not e.keywords:
             x, k = self.E(e.args[0])
             ex = e.args[1]
@@ -711,7 +748,7 @@ class TrQM(TrQ):
                 continue
             if isinstance(st, ast.Return) and st.value is not None:
                 x, k = self.E(st.value)
-                if k != self.cfg["ret"] and not (k == "S" and self.cfg["ret"] == "S1"):
+                if k != self.cfg["ret"] and not (k == "S" and self.cfg["ret"] == "S1") and not (k == "QC" and self.cfg["ret"] == "Q"):
                     raise NotRecognised("returned kind")
                 self.lines.append(f"{ind}return {x}")
                 continue
@@ -731,6 +768,26 @@ class TrQM(TrQ):
                 continue
             if isinstance(st, ast.AnnAssign) and st.value is None:
                 continue
+            if self.cfg.get("matrix") and isinstance(st, ast.For) and not st.orelse and isinstance(st.target, ast.Name) and len(st.body) == 1:
+                i = st.target.id
+                it, b = ast.unparse(st.iter), st.body[0]
+                # for i in range(A.shape[0]): R[i] = np.max(A[i])        (R a zero column with one entry per row of A)
+                if isinstance(b, ast.Assign) and it.startswith("range(") and it.endswith(".shape[0])") and self.env.get(it[6:-10]) == "Q":
+                    a = it[6:-10]
+                    tgt = b.targets[0]
+                    if isinstance(tgt, ast.Subscript) and isinstance(tgt.value, ast.Name) and self.env.get(tgt.value.id) == "QC" and ast.unparse(tgt.slice) == i \
+                            and ast.unparse(b.value) == f"np.max({a}[{i}])" and tgt.value.id in self.declared:
+                        self.ind = ind
+                        t = self.bind(f"NpQ.rowMaxCol {tgt.value.id} {a}")
+                        self.lines.append(f"{ind}{tgt.value.id} := {t}")
+                        continue
+                # for j in range(v.shape[0]): if v[j] == 0: v[j] = 1
+                if isinstance(b, ast.If) and not b.orelse and it.startswith("range(") and it.endswith(".shape[0])") and self.env.get(it[6:-10]) == "VQ":
+                    v = it[6:-10]
+                    if ast.unparse(b.test) == f"{v}[{i}] == 0" and len(b.body) == 1 and ast.unparse(b.body[0]) == f"{v}[{i}] = 1" and v in self.declared:
+                        self.lines.append(f"{ind}{v} := NpQ.zeroToOne {v}")
+                        continue
+                raise NotRecognised("loop " + ast.unparse(st)[:60])
             # d[key] += c   (a table read as its value vector, the key as its position)
             if isinstance(st, ast.AugAssign) and isinstance(st.op, ast.Add) and isinstance(st.target, ast.Subscript) and isinstance(st.target.value, ast.Name) \
                     and isinstance(st.target.slice, ast.Name) and self.env.get(st.target.value.id) == "DQ" and self.env.get(st.target.slice.id) == "IDX":
@@ -804,12 +861,14 @@ class TrQM(TrQ):
         if not body or not isinstance(body[-1], ast.Return):
             raise NotRecognised("the function does not end in a return")
         self.block(body, "  ")
-        lean_k = {"VQ": "List Rat", "S1": "Rat", "DQ": "List Rat", "IDX": "Nat", "N": "Nat"}
+        lean_k = {"VQ": "List Rat", "S1": "Rat", "DQ": "List Rat", "IDX": "Nat", "N": "Nat", "Q": "NpQ.Mat"}
         fnp = [f"({lean} : " + " → ".join(["List Rat"] * len(names)) + " → Rat)" for lean, names in cfg.get("ext_scalar_fn", {}).values()]
         if cfg.get("cauchy"):
             fnp.append("(cauchy : Rat → Rat → Nat → Rat)")
         if cfg.get("sampler"):
             fnp.append("(sampler : List Rat → Nat → Bool → List Nat)")
+        if cfg.get("expo"):
+            fnp.append("(expo : Rat → Rat)")
         params = fnp + [f"(self{a} : {lean_k[k_]})" for a, k_ in cfg.get("self_attrs", [])] + [f"({p} : {lean_k[k_]})" for p, k_ in plist]
         loop_txt = ""
         if self.loop_def is not None:
@@ -820,8 +879,8 @@ class TrQM(TrQ):
             self.lines = [l.replace("LOOPARGS", names) for l in self.lines]
             params = params + ["(fuel : Nat)"]
         return ("/- GENERATED by harness/extract/np2lean.py from src/thefittest/" + cfg["file"] + f" ({(cfg['cls'] + '.') if cfg['cls'] else ''}{cfg['func']}) — do not edit -/\n"
-                + "import TFV.Model.NpQ\nnamespace TFV.Generated.Src\nopen TFV\n\n" + loop_txt
-                + f"def {cfg['name']} " + " ".join(params) + f" : Option {'(List Rat)' if cfg['ret'] == 'VQ' else '(List Nat)' if cfg['ret'] == 'VN' else 'Rat'} := do\n" + "\n".join(self.lines) + "\n\nend TFV.Generated.Src\n")
+                + "import TFV.Model.NpQ\n" + "".join(f"import TFV.Generated.Src.{v}\n" for v in cfg.get("calls_q", {}).values()) + "namespace TFV.Generated.Src\nopen TFV\n\n" + loop_txt
+                + f"def {cfg['name']} " + " ".join(params) + f" : Option {'(List Rat)' if cfg['ret'] == 'VQ' else '(List Nat)' if cfg['ret'] == 'VN' else 'NpQ.Mat' if cfg['ret'] == 'Q' else 'Rat'} := do\n" + "\n".join(self.lines) + "\n\nend TFV.Generated.Src\n")
 
 
 def translate(repo: Path, cfg: dict) -> str:
